@@ -23,13 +23,15 @@ func (f *Federation) OnSubscribedWrapper(pre server.OnSubscribed) server.OnSubsc
 	return func(ctx context.Context, client server.Client, subscription *gmqtt.Subscription) {
 		pre(ctx, client, subscription)
 		if subscription != nil {
+			// The book-keeping and the emission of the event are one step: the events of two clients acting on the
+			// same filter reach the peers in the order in which the counter saw them.
+			f.memberMu.Lock()
+			defer f.memberMu.Unlock()
 			if !f.localSubStore.subscribe(client.ClientOptions().ClientID, subscription.GetFullTopicName()) {
 				return
 			}
 			verifYield("fed.subscribed.counted")
 			// only send new subscription
-			f.memberMu.Lock()
-			defer f.memberMu.Unlock()
 			for _, v := range f.peers {
 				sub := &Subscribe{
 					ShareName:   subscription.ShareName,
@@ -47,13 +49,13 @@ func (f *Federation) OnSubscribedWrapper(pre server.OnSubscribed) server.OnSubsc
 func (f *Federation) OnUnsubscribedWrapper(pre server.OnUnsubscribed) server.OnUnsubscribed {
 	return func(ctx context.Context, client server.Client, topicName string) {
 		pre(ctx, client, topicName)
+		f.memberMu.Lock()
+		defer f.memberMu.Unlock()
 		if !f.localSubStore.unsubscribe(client.ClientOptions().ClientID, topicName) {
 			return
 		}
 		verifYield("fed.unsubscribed.counted")
 		// only unsubscribe topic if there is no local subscriber anymore.
-		f.memberMu.Lock()
-		defer f.memberMu.Unlock()
 		for _, v := range f.peers {
 			unsub := &Unsubscribe{
 				TopicName: topicName,
@@ -199,9 +201,9 @@ func (f *Federation) OnMsgArrivedWrapper(pre server.OnMsgArrived) server.OnMsgAr
 func (f *Federation) OnSessionTerminatedWrapper(pre server.OnSessionTerminated) server.OnSessionTerminated {
 	return func(ctx context.Context, clientID string, reason server.SessionTerminatedReason) {
 		pre(ctx, clientID, reason)
+		f.memberMu.Lock()
+		defer f.memberMu.Unlock()
 		if unsubs := f.localSubStore.unsubscribeAll(clientID); len(unsubs) != 0 {
-			f.memberMu.Lock()
-			defer f.memberMu.Unlock()
 			for _, v := range f.peers {
 				for _, topicName := range unsubs {
 					unsub := &Unsubscribe{
